@@ -127,3 +127,80 @@ theorem tables_of_text (d : Gen.D) (q : Query) (hq : FragQ d q = true) (hl : Lea
   · simp [Drv.anTables, hf, hjn]
 
 end C14
+
+namespace C16
+open LN Flow
+
+/-- **C16.lineage_of_text**: for a hygienic query of the nested fragment whose specified flow is `R`: the text the printer writes is
+parsed back to the query, and the lineage analysis of that text (the driver's `AN lineage` call: `get_select_table_lineage` on
+`parse_statements(text)[0]`, from empty stores, whatever the getter was asked before) returns the lineage object built from `R` —
+output columns in order, numbered from 1, each with exactly the base columns that reach it -/
+theorem lineage_of_text (d : Gen.D) (q : Query) (hq : FragQ d q = true) (hl : LeafQ d q)
+    (hpre : dialectPre d (prQL d q) = prQL d q)
+    (cat : Cat) (hy : Hygienic (LN.fuelFor q) q) (R : Rel) (h : flowQ cat (LN.fuelFor q) [] q = .ok R) (asked : List String) :
+    ∃ (str : String) (st' : LN.St), PR.prQ d q = .ok str ∧ Drv.firstStmt d str.toList = .ok (.select q) ∧
+      selectLineage cat (LN.fuelFor q) q { asked := asked } = .ok (mkLineage (number R 1) Lineage.empty, st') ∧
+      Drv.lineageCall cat d str.toList asked =
+        ("OK " ++ Drv.showVal (.list ((number R 1).map fun (c, s) => .tuple [c.toVal, .list (s.map LN.SrcCol.toVal)])), some st') := by
+  obtain ⟨str, ts, h1, _, _, _, _, h6⟩ := C03.tquery_text d q hq hl hpre
+  have hf := C14.firstStmt_text h6
+  obtain ⟨st', hs⟩ := lineage_eq_flow_from cat (LN.fuelFor q) q hy R h { asked := asked } rfl rfl
+  refine ⟨str, st', h1, hf, hs, ?_⟩
+  simp only [Drv.lineageCall, hf, hs, lineage_columns]
+
+/-- … and if the specification says "analysis error" (an unknown or ambiguous reference at any level), the analysis of the TEXT raises
+the library's analysis error -/
+theorem lineage_error_of_text (d : Gen.D) (q : Query) (hq : FragQ d q = true) (hl : LeafQ d q)
+    (hpre : dialectPre d (prQL d q) = prQL d q)
+    (cat : Cat) (hy : Hygienic (LN.fuelFor q) q) (h : flowQ cat (LN.fuelFor q) [] q = .error .analysis) :
+    ∃ (str : String), PR.prQ d q = .ok str ∧ Drv.firstStmt d str.toList = .ok (.select q) ∧
+      Drv.lineageCall cat d str.toList [] = (Err.analyzer.show, none) := by
+  obtain ⟨str, ts, h1, _, _, _, _, h6⟩ := C03.tquery_text d q hq hl hpre
+  have hf := C14.firstStmt_text h6
+  have hs := analysis_error_raised cat (LN.fuelFor q) q hy h
+  refine ⟨str, h1, hf, ?_⟩
+  have e : ({ asked := [] } : LN.St) = {} := rfl
+  simp only [Drv.lineageCall, hf, e, hs]
+
+/-- **INSERT … SELECT at token level** (through `C03.tstatement`): the token rendering of a fragment statement `INSERT … (c₁, …, cₙ)
+<query>` parses to that statement with the entry point's own fuel, and the lineage analysis of the parsed statement pairs the i-th
+listed target column with exactly the sources of the i-th output column of the specified flow -/
+theorem insert_lineage_of_tokens (d : Gen.D) (h : InsertHead) (q : Query) (hs : TDM.FragStmt d (.insertSelect h q) = true)
+    (cat : Cat) (cs : List (Option String × String)) (hc : h.columns = some cs) (R : Rel)
+    (hy : Hygienic (LN.fuelFor (setWiths h.withs q)) (setWiths h.withs q))
+    (hflow : flowQ cat (LN.fuelFor (setWiths h.withs q)) [] (setWiths h.withs q) = .ok R)
+    (hlen : cs.length = R.length) (hnd : (cs.map (·.2)).Nodup) :
+    ∃ st', pStatement d (PM.fuelFor (TDM.toksStmt d (.insertSelect h q))) (TDM.toksStmt d (.insertSelect h q)) = .ok (.insertSelect h q, []) ∧
+      insertLineage cat h q {} =
+        .ok (List.zipWith (fun c r => (({ schema := h.table.schema, table := h.table.name, col := some c.2 } : SrcCol), r.2)) cs R, st') := by
+  obtain ⟨st', hsel⟩ := lineage_eq_flow cat _ _ hy R hflow
+  refine ⟨st', ?_, insert_pairing_ok cat h cs hc q R st' hsel hlen hnd⟩
+  have := C03.tstatement_entry_fuel d (.insertSelect h q) hs [] rfl
+  simpa using this
+
+end C16
+
+namespace C15
+open AN
+
+/-- **C15.columns_of_text**: for a query of the nested fragment, on the TEXT the printer writes: the per-clause column analysis of
+`parse_statements(text)[0]` (the driver's `AN columns <clause>` call) returns exactly `Spec.specQuery c q` — for every top-level branch
+the references written in that clause at the current level (never those of a bracketed sub-query), aliases and positions replaced in
+GROUP BY / HAVING / ORDER BY.  `Good c s` are the hypotheses of the tree theorem `C15.query_exact_partial` (for the select list, JOIN
+and WHERE: no clash with a select alias, finding F-C15-1; nothing for HAVING). -/
+theorem columns_of_text (d : Gen.D) (q : Query) (hq : FragQ d q = true) (hl : LeafQ d q)
+    (hpre : dialectPre d (prQL d q) = prQL d q) (c : AN.Clause) (hg : ∀ s ∈ branchesOf q, Good c s) :
+    ∃ (str : String), PR.prQ d q = .ok str ∧ Drv.firstStmt d str.toList = .ok (.select q) ∧
+      (Drv.firstStmt d str.toList >>= currentColsStmt c) = .ok (specQuery c q) ∧
+      ∀ kind, kind ≠ "hash" → AN.Clause.ofName? kind = some c →
+        Drv.anColumns kind d str.toList = Drv.showAn (.ok ((specQuery c q).map QCol.toVal)) := by
+  obtain ⟨str, ts, h1, _, _, _, _, h6⟩ := C03.tquery_text d q hq hl hpre
+  have hf := C14.firstStmt_text h6
+  have hc := query_exact_partial c q hg
+  refine ⟨str, h1, hf, ?_, ?_⟩
+  · rw [hf]; exact hc
+  · intro kind hk hn
+    simp [Drv.anColumns, hf, hk, hn, currentColsStmt, hc]
+    rfl
+
+end C15
